@@ -90,6 +90,13 @@ def run(ctx):
                       label=f"sanity: deviation {name} must violate {inv}")
         if dev.violated != inv:
             raise vlib.ToolError(f"sanity run: deviation {name} was not rejected by TLC ({dev.violated})")
+    # liveness of the design model, beyond the listed property (informational): no queued fetch starves,
+    # every started fetch is eventually completed or abandoned (weak fairness of workers and idle wake-ups)
+    live = ctx.tlc("MCFetchSched", "MCFetchSched_live_t.cfg" if thorough else "MCFetchSched_live.cfg", workers=8, timeout=3000 if thorough else 600,
+                   coverage=False, heap="8g", label="design model liveness: QueueDrains, TasksComplete under LiveSpec (informational)")
+    liveness = {"checked": not live.timed_out, "violated": live.violated, "distinct_states": live.distinct}
+    if live.violated:
+        vlib.log(f"design-model liveness property violated (informational, beyond C16): {live.violated}")
     behaviours = [c["ops"] for c in res.cases if c.get("ops")]
     rng = random.Random(ctx.seed)
     limit = 80000 if thorough else 3000
@@ -167,7 +174,8 @@ def run(ctx):
     ctx.assumptions += ["service-level runs apply the rule of Wire::worker_result in the harness; the wire-level runs execute the real Wire (peers registered through the verif_established hook, no sockets)",
                         "a reconnect is a disconnect followed by a connect",
                         "the repository's Peer test double drives the same Service code as the runtime"]
-    return ctx.finish(rule=RULE, extra={"fetches_emitted": fetches, "model_behaviours": len(behaviours), "random_runs": nrand, "wire_level": wstats})
+    return ctx.finish(rule=RULE, extra={"fetches_emitted": fetches, "model_behaviours": len(behaviours), "random_runs": nrand, "wire_level": wstats,
+                                        "liveness_beyond_listed_property": liveness})
 
 
 def replay(ctx, path):
